@@ -29,6 +29,48 @@ def gen_texts(rng, n):
     return out
 
 
+SPECIAL_KEYS = ["item", "a", "b", "na", "sa", "x", "p", "partial", "qty"]
+
+
+def special_texts(rng, n):
+    """constructs whose temporary contexts depend on the DATA: list elements that are contexts with entries named like the
+    implicit filter variable (`item`), like iteration variables / parameters in use, or like names of the caller's scope"""
+    out = []
+    for _ in range(n):
+        elems = []
+        for _e in range(rng.randint(1, 4)):
+            if rng.random() < 0.15:
+                elems.append(rng.choice(["1", '"a"', "null", "[1]"]))
+                continue
+            keys = rng.sample(SPECIAL_KEYS, rng.randint(1, 3))
+            elems.append("{%s}" % ", ".join("%s: %s" % (k, rng.choice(["1", "2", '"bolt"', "true", "null", "na", "{a: 1}"])) for k in keys))
+        lst = "[%s]" % ", ".join(elems)
+        k1, k2 = rng.choice(SPECIAL_KEYS), rng.choice(SPECIAL_KEYS)
+        cond = rng.choice(["%s = 1" % k1, "%s != null" % k1, "%s = %s" % (k1, k2), "item != null", "item.%s = 1" % k1, "true", "%s" % k1, "1", "-1", "%s > na" % k1])
+        f = "%s[%s]" % (lst, cond)
+        w = rng.randrange(9)
+        if w == 0:
+            t = f
+        elif w == 1:
+            t = "for x in [1, 2] return %s" % f
+        elif w == 2:
+            t = "{a: %s, b: na, c: a}" % f
+        elif w == 3:
+            t = "(function(item, p) %s)(1, 2)" % f
+        elif w == 4:
+            t = "some x in %s satisfies x != null" % f
+        elif w == 5:
+            t = "%s[%s]" % (f, cond)
+        elif w == 6:
+            t = "count(%s) + (if na = null then 0 else 1)" % f
+        elif w == 7:
+            t = "for item in %s return item" % f
+        else:
+            t = "[%s, na, %s]" % (f, k1)
+        out.append(t)
+    return out
+
+
 def layered_scope(rng):
     g = gfeel.Gen(rng)
     frames = g.scope()
@@ -43,14 +85,14 @@ def run(rep, tier, seed):
     n_hist = 150 if tier == "quick" else 12000
     n_models = 300 if tier == "quick" else 20000
     rep.rule = (
-        "%d expressions forced through constructs that push temporary contexts (context literals, filters, for/some/every, invocations, unary tests), each parsed and evaluated 3x in scopes of 1-4 layers with the "
+        "%d expressions forced through constructs that push temporary contexts (context literals, filters, for/some/every, invocations, unary tests) plus a quarter as many filters over lists whose context elements carry entries named `item`, like variables in use or like names of the caller's scope, each parsed and evaluated 3x in scopes of 1-4 layers with the "
         "scope rendered before/after; %d histories of 200-2000 steps over 8 prepared evaluators x 4 long-lived scopes; successful parses through all six entry points; %d generated DMN models (boxed contexts, "
         "invocations, BKMs, services, tables) with every (invocable, input) pair called 3x interleaved in random order. Distinct = (text | history | model call); non-trivial = evaluation produced a non-null value." % (n_expr, n_hist, n_models)
     )
     rep.assumptions = ["the scope's textual rendering (Display of the stack of contexts) is a faithful witness of its contents", "values depending on the current date (times of day in named zones) are not generated"]
     rng = rng_for(seed, "c13")
     # ---- 1. expressions: snapshot monitor -------------------------------------------------
-    texts = gen_texts(rng, n_expr)
+    texts = gen_texts(rng, n_expr) + special_texts(rng, n_expr // 4)
     cases = []
     for group in chunks(texts, 40):
         cases.append({"op": "evalmany", "scope": layered_scope(rng), "texts": group, "reps": 3})
@@ -97,7 +139,7 @@ def run(rep, tier, seed):
     for h in range(n_hist):
         evs = []
         pscope = layered_scope(rng)
-        for t in gen_texts(rng, 8):
+        for t in gen_texts(rng, 6) + special_texts(rng, 2):
             evs.append({"entry": "expr", "text": t, "scope": pscope})
         scopes = [layered_scope(rng) for _ in range(4)]
         steps = [[rng.randrange(8), rng.randrange(4)] for _ in range(rng.choice([200, 500, 2000]))]
